@@ -88,7 +88,8 @@ def regsOfStmt : CStmt → List (String × RegKind)
   | .assign l _ e => regsOfExpr l ++ regsOfExpr e
   | .store _ e => regsOfExpr e
   | .ite c t e => regsOfExpr c ++ regsOfStmts t ++ (match e with | some e => regsOfStmts e | none => [])
-  | .for_ _ c b => regsOfExpr c ++ regsOfStmts b
+  | .for_ _ c _ b => regsOfExpr c ++ regsOfStmts b
+  | .chain l1 l2 _ e => regsOfExpr l1 ++ regsOfExpr l2 ++ regsOfExpr e
   | .jump e => regsOfExpr e
   | _ => []
 def regsOfStmts : List CStmt → List (String × RegKind)
@@ -101,7 +102,10 @@ def varsOfStmt : CStmt → List String
   | .decl _ n _ => [n]
   | .assign (.var n _) _ _ => [n]
   | .ite _ t e => varsOfStmts t ++ (match e with | some e => varsOfStmts e | none => [])
-  | .for_ v _ b => v :: varsOfStmts b
+  | .for_ v _ _ b => v :: varsOfStmts b
+  | .chain (.var n1 _) (.var n2 _) _ _ => [n1, n2]
+  | .chain (.var n1 _) _ _ _ => [n1]
+  | .chain _ (.var n2 _) _ _ => [n2]
   | _ => []
 def varsOfStmts : List CStmt → List String
   | [] => []
